@@ -199,7 +199,10 @@ def run_history(P):
                 loop.at_event(loop.events + P["seek"]["k"], do_seek)
         if P["coordinator_move"] and P["group"]:
             loop.call_later(rng.uniform(0.0, 0.3), lambda: cl.move_coordinator(GROUP, 0, with_state=True))
-        await asyncio.sleep(settle_bound(P))
+        # injected faults stop at quiet_at (0.75 x bound after start); the positions are read one full bound after THAT:
+        # the statement is about where the consumer ends up, and a lookup chain that was being delayed until the last
+        # moment of the fault window (OffsetFetch -> Fetch -> OFFSET_OUT_OF_RANGE -> ListOffsets) needs its own time
+        await asyncio.sleep(1.75 * settle_bound(P))
         # ---- settled positions (nothing has been handed out yet: position only moves on hand-out / reset)
         for tp in tps:
             try:
@@ -358,7 +361,7 @@ def judge(H):
         pe = pos.get(p)
         if pe is None or pe.get("pos") is None:
             V.append(("position_not_established_within_bound",
-                      f"partition {p}: position() gave no value {round(settle_bound(P), 1)}s after start "
+                      f"partition {p}: position() gave no value {round(settle_bound(P), 1)}s after the injected faults stopped "
                       f"(expected {expected} via {how}); {pe}", detail))
             continue
         if pe["pos"] != expected:
